@@ -5,12 +5,17 @@
     [start] is 0, or the pointer size when the type owns its vftable pointer (which is then the first
     field, at offset 0).  [field_offsets] is the Rust Reference's repr(C) / packed algorithm
     (RustLayout.v) applied to the emitted struct.  The theorem: the two agree on every named field,
-    for every registry state and every description that [type_build] accepts. *)
+    for every registry state and every description that [type_build] accepts.
+    REFUTED ON THE MODEL (RefutedWitnesses*.v; open finding F9): [C01_void_by_value_refuted_F9] -- an accepted input
+    with a by-value `void` member: resolved with size 0, emitted as ::std::ffi::c_void (1 byte for the compiler), so the
+    member after it is declared at 0 and compiled at 1.  The positive theorems speak of the registry's own sizes. *)
 From Coq Require Import List NArith Bool String.
 From PyxisModel Require Import Base Grammar SemTypes Registry Sem RustLayout LayoutLemmas SemLemmas
      PlacementLemmas WholeBuild Examples Sexp Emit EmitReaders EmitShape EmitFinal EmitLayout.
 Import ListNotations.
 Local Open Scope N_scope.
+
+From PyxisModel Require RefutedInputs RefutedWitnessesOrder RefutedWitnessesEmit RefutedWitnessesFn.
 
 Theorem C01_main : forall st p v d st' rs,
   type_build st p v d = (st', Ok rs) -> reg_u8 (st_reg st') ->
@@ -129,3 +134,28 @@ Theorem C01_emitted_struct : forall order ptr mods st0 st files p it0 gd td0,
              (declared_offsets R start pending).
 Proof. exact emitted_struct_whole_build. Qed.
 Print Assumptions C01_emitted_struct.
+
+Theorem C01_void_by_value_refuted_F9 :
+  exists (st0 st : sstate) (files : RefutedInputs.files_t),
+      RefutedInputs.built [] 4 RefutedInputs.f9_mods st0 st files /\
+      RefutedInputs.side_ok st0 = true /\
+      RefutedInputs.size_at st ["a"%string; "T"%string] = Some 1 /\
+      option_map (map r_type) (RefutedInputs.regions_at st ["a"%string; "T"%string]) =
+      Some RefutedWitnessesEmit.f9_tys /\
+      RefutedInputs.thenr (RefutedInputs.struct_of files "a.rs" "T") struct_repr = Some ReprPacked /\
+      option_map (map (fun ef : efield => (ef_name ef, ef_ty ef)))
+        (RefutedInputs.thenr (RefutedInputs.struct_of files "a.rs" "T") struct_fields) =
+      Some [("a"%string, RefutedWitnessesEmit.c_void_tokens); ("b"%string, [Atom "u8"])] /\
+      RefutedInputs.size_check_of files "a.rs" "T" = Some (1, 1) /\
+      map (type_sa (st_reg st)) RefutedWitnessesEmit.f9_tys = [(0, 1); (1, 1)] /\
+      map (RefutedWitnessesEmit.rustc_field_sa (st_reg st)) RefutedWitnessesEmit.f9_tys =
+      [(1, 1); (1, 1)] /\
+      RefutedInputs.thenr (RefutedInputs.struct_of files "a.rs" "T")
+        (emitted_struct_layout (map (type_sa (st_reg st)) RefutedWitnessesEmit.f9_tys)) =
+      Some ([("a"%string, 0); ("b"%string, 0)], 1, 1) /\
+      RefutedInputs.thenr (RefutedInputs.struct_of files "a.rs" "T")
+        (emitted_struct_layout
+           (map (RefutedWitnessesEmit.rustc_field_sa (st_reg st)) RefutedWitnessesEmit.f9_tys)) =
+      Some ([("a"%string, 0); ("b"%string, 1)], 2, 1).
+Proof. exact RefutedWitnessesEmit.C01_C02_void_by_value_refuted_F9. Qed.
+Print Assumptions C01_void_by_value_refuted_F9.
